@@ -45,6 +45,8 @@
       deletes its single slot (whatever it holds by then).  RECEIVING a fatal alert
       deletes nothing.
     * a resumed client that completed re-sends Flight 5b when Flight 4b arrives again.
+    * rogue peers on either side (StartRogue / RogueHello: a "server" without store; StartRogueClient /
+      RogueFinished: a "client" that offers an id and keys its Finished with a secret of its choice).
     * flight3Parse is RE-ENTERED whenever more of the server flight arrives.  A ServerHello
       whose session id is not the offered one starts the full path: the client adopts the
       id (state.SessionID) and clears the master secret BEFORE the rest of the flight is
@@ -89,7 +91,7 @@ Msgs == {"CH", "CHt", "F4b", "F5b", "F4", "F5", "F6", "alertC", "alertS"}
 Lossy == {"CH", "CHt", "F4b", "F5b", "alertC", "alertS"}
 EmptySlot == [id |-> None, ms |-> None]
 NoServerStore == [i \in Ids |-> None]
-NoRogue == [id |-> None, sec |-> None]
+NoRogue == [id |-> None, sec |-> None, side |-> None]
 
 \* pre-populated store contents: session "A" with secret "SA"; "SB" is another (swapped) secret,
 \* "ST" a truncated copy (a different term)
@@ -129,7 +131,7 @@ view == <<content, cstore, sstore, started, cst, sst, offer, csid, cms, sid, sms
           tam, dev, cc, cids, net, alerted, rogue, drops, tampers, devs, provokes, touts>>
 
 Faults == drops + tampers + devs + provokes
-CTerminal(k) == cst[k] \in {"est", "failed", "closed"}
+CTerminal(k) == cst[k] \in {"est", "failed", "closed", "rogue"}
 STerminal(k) == sst[k] \in {"est", "failed", "closed", "rogue"}
 Finished(k) == CTerminal(k) /\ STerminal(k)
 CRand(k) == IF FreshRandoms THEN k ELSE 0
@@ -372,7 +374,7 @@ StartRogue(k, i, x) ==
   /\ Cardinality({j \in 1..started : rogue[j].id # None}) < MaxRogue
   /\ Cardinality({j \in 1..started : ~Finished(j)}) < MaxActive
   /\ started' = k
-  /\ rogue' = [rogue EXCEPT ![k] = [id |-> i, sec |-> x]]
+  /\ rogue' = [rogue EXCEPT ![k] = [id |-> i, sec |-> x, side |-> "s"]]
   /\ offer' = [offer EXCEPT ![k] = cstore]
   /\ csid' = [csid EXCEPT ![k] = cstore.id]
   /\ cms' = [cms EXCEPT ![k] = cstore.ms]
@@ -383,7 +385,7 @@ StartRogue(k, i, x) ==
 
 \* flight3Parse on the rogue's ServerHello (withFin: ChangeCipherSpec + Finished travel with it)
 RogueHello(k, withFin) ==
-  /\ rogue[k].id # None /\ cst[k] = "waitSH"
+  /\ rogue[k].side = "s" /\ cst[k] = "waitSH"
   /\ LET id == rogue[k].id
          resumeBranch == csid[k] = id /\ (ResumeNeedsStoredSecret => cms[k] \notin {None, "E"})
      IN
@@ -403,6 +405,30 @@ RogueHello(k, withFin) ==
           /\ UNCHANGED <<cabbr, cver, ce, cst, cids>>
   /\ UNCHANGED <<content, cstore, sstore, started, sst, offer, sid, sms, sabbr, sver, se, tam, dev, cc, net, alerted, rogue,
                  drops, tampers, devs, provokes, touts>>
+
+(* a rogue CLIENT: it offers a session id of its choice and keys its Finished with a secret of its choice; the
+   real server (with the shared store) answers.  The client-side variables of the connection describe the rogue. *)
+StartRogueClient(k, i, x) ==
+  /\ k = started + 1 /\ k <= MaxConns
+  /\ Cardinality({j \in 1..started : rogue[j].id # None}) < MaxRogue
+  /\ Cardinality({j \in 1..started : ~Finished(j)}) < MaxActive
+  /\ started' = k
+  /\ rogue' = [rogue EXCEPT ![k] = [id |-> i, sec |-> x, side |-> "c"]]
+  /\ offer' = [offer EXCEPT ![k] = [id |-> i, ms |-> x]]
+  /\ csid' = [csid EXCEPT ![k] = i]
+  /\ cms' = [cms EXCEPT ![k] = x]
+  /\ cst' = [cst EXCEPT ![k] = "rogue"]
+  /\ sst' = [sst EXCEPT ![k] = "idle"]
+  /\ net' = [net EXCEPT ![k] = {"CH"}]
+  /\ UNCHANGED <<content, cstore, sstore, sid, sms, cabbr, sabbr, cver, sver, ce, se, tam, dev, cc, cids, alerted,
+                 drops, tampers, devs, provokes, touts>>
+
+\* having seen the server's abbreviated flight (its random), the rogue sends ChangeCipherSpec + Finished
+RogueFinished(k) ==
+  /\ rogue[k].side = "c" /\ "F4b" \in net[k]
+  /\ net' = [net EXCEPT ![k] = (@ \ {"F4b"}) \cup {"F5b"}]
+  /\ UNCHANGED <<content, cstore, sstore, started, cst, sst, offer, csid, cms, sid, sms, cabbr, sabbr, cver, sver, ce, se, tam,
+                 dev, cc, cids, alerted, rogue, drops, tampers, devs, provokes, touts>>
 
 -----------------------------------------------------------------------------
 Post == [c |-> cst', s |-> sst', ca |-> cabbr', sa |-> sabbr',
@@ -429,6 +455,8 @@ Next ==
   \E k \in Conns :
      \/ \E i \in RogueIds, x \in RogueSecrets : StartRogue(k, i, x) /\ Log("StartRogue", k, <<i, x>>)
      \/ \E f \in BOOLEAN : RogueHello(k, f) /\ Log("RogueHello", k, <<IF f THEN "fin" ELSE "nofin">>)
+     \/ \E i \in RogueIds, x \in RogueSecrets : StartRogueClient(k, i, x) /\ Log("StartRogueClient", k, <<i, x>>)
+     \/ RogueFinished(k) /\ Log("RogueFinished", k, <<>>)
      \/ UNCHANGED rogue /\ HonestNext(k)
 
 Spec == Init /\ [][Next]_vars
@@ -451,7 +479,7 @@ ResumeSound ==
 
 \* one-sided forms: an endpoint reports success of an abbreviated handshake only after it
 \* verified a Finished computed from the secret it holds itself
-PeerSecret(k) == IF rogue[k].id # None THEN rogue[k].sec ELSE sms[k]
+PeerSecret(k) == IF rogue[k].side = "s" THEN rogue[k].sec ELSE sms[k]
 ClientResumeSound == \A k \in Conns : (ce[k] /\ cabbr[k]) => (cver[k] /\ cms[k] = PeerSecret(k))
 \* ... and the client resumes only the session it offered, under the secret its store held for it
 ClientResumesOnlyOffered ==
